@@ -184,7 +184,15 @@ func (p c04Prop) Run(in interface{}) Sx {
 		if !c.Sess.Insecure && ci < len(ob.clear) {
 			res = clearResidue(ob.clear[ci])
 		}
-		per = append(per, L(LS(ss), SBytes(res)))
+		// the flags the gate reads, against what the server saw of THIS connection: isSecure claiming a TLS that was never
+		// established on it; after a successful negotiation, Session.TlsEnabled differing from "the session runs over TLS"
+		tlsHere := ci < len(ob.tlsLogs) && ob.tlsLogs[ci] == "ok"
+		var fl [2]bool
+		if ci < len(ob.flags) {
+			fl = ob.flags[ci]
+		}
+		okHere := ci < len(ob.errs) && ob.errs[ci] == nil
+		per = append(per, L(LS(ss), SBytes(res), B(fl[0] && !tlsHere), B(okHere && fl[1] != tlsHere)))
 	}
 	return L(sx, LS(per))
 }
@@ -216,7 +224,33 @@ func (p c04Prop) InputObs(in interface{}, obs Sx) Sx {
 		}
 		plans = append(plans, L(LS(during), Zi(after), LS(rduring), Zi(rafter)))
 	}
-	return L(Z(0), sessInputSx(*c.Sess), LS(plans))
+	return L(Z(0), sessInputSx(*c.Sess), LS(plans), tlsDataSx(*c.Sess))
+}
+
+// tlsDataSx: what the MODEL decides the outcome of StartTLS from (Model/TlsPolicy.start_tls): the client's TLS
+// configuration and, per connection, what crypto/x509 says about the certificate presented -- trusted (issued by the CA
+// of the configured pool and within its validity; never with a nil TLSConfig: the system roots do not know the test
+// CA) and the names it carries. The decision itself (ServerName defaulting, the second check against Domain,
+// InsecureSkipVerify) is the model's; sessIn.tlsOutcome stays the independent reading used by the direct oracle.
+func tlsDataSx(in sessIn) Sx {
+	sn := in.ServerName
+	if in.TLSMode == 2 {
+		sn = "" // no TLSConfig at all
+	}
+	var certs []Sx
+	for _, c := range in.Conns {
+		kind := c.Cert
+		if kind == "" {
+			kind = "valid"
+		}
+		trusted := in.TLSMode != 2 && (kind == "valid" || kind == "wronghost")
+		name := srvDomain
+		if kind == "wronghost" {
+			name = "other.example"
+		}
+		certs = append(certs, L(B(trusted), L(SBytes(name))))
+	}
+	return L(B(in.TLSMode == 1), SBytes(sn), SBytes(srvDomain), LS(certs))
 }
 
 func (p c04Prop) Oracle(in interface{}, obs Sx) (string, string) {
@@ -260,6 +294,14 @@ func (p c04Prop) Oracle(in interface{}, obs Sx) (string, string) {
 			}
 			if so.L[0].Z == 3 {
 				return fmt.Sprintf("conn %d: %s %s: nil was returned but nothing reached the server", ci, what, when), "send-lost"
+			}
+		}
+		if len(pc.L) >= 4 && !sc.NoDial {
+			if pc.L[2].Z == 1 {
+				return fmt.Sprintf("conn %d: after this connection the transport says IsSecure although no TLS session was established on it: the next negotiation on this client would skip STARTTLS and its gate", ci), "stale-secure-flag"
+			}
+			if pc.L[3].Z == 1 {
+				return fmt.Sprintf("conn %d: the negotiation succeeded but Session.TlsEnabled does not say whether the session runs over TLS", ci), "tlsenabled-wrong"
 			}
 		}
 		if res := string(bytesOf(pc.L[1])); res != "" {
